@@ -91,6 +91,13 @@ func vRefParse(stream []byte, ops []vReadOp, avail int) (res []vReadRes, consume
 	return res, pos
 }
 
+func vMax0(a int) int {
+	if a < 0 {
+		return 0
+	}
+	return a
+}
+
 func isTrzszLetterRef(b byte) bool {
 	return (b >= 'a' && b <= 'z') || (b >= 'A' && b <= 'Z') || (b >= '0' && b <= '9') || b == '#' || b == ':' || b == '+' || b == '/' || b == '='
 }
@@ -173,8 +180,22 @@ func vScenarioC03(rc *runCtx) {
 	if tp.Bool("c03.ctrlc", 150) {
 		alphabet = append(alphabet, 0x03)
 	}
-	if windows {
-		// clean Windows framing only: its noise behaviour is C16's subject
+	var wantNoisy []vReadRes
+	winNoise := windows && tp.Bool("c03.winnoise", 400)
+	if winNoise {
+		// the documented console noise (C16's grammar) under every two-way cut and random segmentations: what
+		// a line read returns must not depend on where the noisy rendering was cut
+		nlines := 1 + tp.Draw("c03.wnlines", 3)
+		for i := 0; i < nlines; i++ {
+			typ := []string{"SUCC", "DATA", "NAME", "CFG"}[tp.Draw("c03.wntyp", 4)]
+			payload := vProtoPayload(tp, 1+tp.Draw("c03.wnlen", 24))
+			noisy, _ := vWinNoise(tp, typ, payload)
+			stream = append(stream, noisy...)
+			ops = append(ops, vReadOp{kind: "win"})
+			wantNoisy = append(wantNoisy, vReadRes{data: []byte("#" + typ + ":" + payload)})
+		}
+	} else if windows {
+		// clean Windows framing
 		nlines := 1 + tp.Draw("c03.wlines", 5)
 		for i := 0; i < nlines; i++ {
 			n := 1 + tp.Draw("c03.wlen", 12)
@@ -219,6 +240,9 @@ func vScenarioC03(rc *runCtx) {
 		}
 	}
 	want, _ := vRefParse(stream, ops, len(stream))
+	if winNoise {
+		want = wantNoisy
+	}
 	rc.res.Scenario["stream"] = vQuote(stream, 60)
 	var opNames []string
 	for _, o := range ops {
@@ -258,7 +282,29 @@ func vScenarioC03(rc *runCtx) {
 		}
 		return true
 	}
-	if exhaustive && len(stream) <= 12 && !windows {
+	if winNoise {
+		// every two-way cut, then random segmentations (no promptness check: the reference parser above does
+		// not model the noise)
+		for cut := 1; cut < len(stream) && cut < 400; cut++ {
+			got, _ := vRunBufferCase(rc, stream, []int{cut}, ops, false)
+			if !compare(got, fmt.Sprintf("noisy Windows rendering cut once at %d (%s|%s)", cut, vQuote(stream[vMax0(cut-12):cut], 14), vQuote(stream[cut:], 12))) {
+				return
+			}
+		}
+		for rep := 0; rep < 3; rep++ {
+			var cuts []int
+			for i := 1; i < len(stream); i++ {
+				if tp.Bool("c03.wncut", []int{100, 400, 1000}[rep]) {
+					cuts = append(cuts, i)
+				}
+			}
+			got, _ := vRunBufferCase(rc, stream, cuts, ops, false)
+			if !compare(got, fmt.Sprintf("noisy Windows rendering with %d cuts", len(cuts))) {
+				return
+			}
+		}
+		rc.w.Probe("windows-noise-all-two-way-cuts")
+	} else if exhaustive && len(stream) <= 12 && !windows {
 		n := len(stream)
 		cases := 0
 		for mask := 0; mask < 1<<(n-1); mask++ {
